@@ -46,6 +46,10 @@ def families(draw):
             if mode == "hpc" else [],
             # ... in particular near the end of a batch, and slowly (see common.late_ops)
             "late": draw(C.late_ops()) if mode == "hpc" else [],
+            # moments at which the scheduler shows a queued/running batch in a non-terminal state outside JADE's table
+            # (SUSPENDED, REQUEUED, RESIZING, ...): the batch is still alive and its jobs will get results
+            "exotic": draw(st.lists(st.fixed_dictionaries({"at": st.integers(10, 300), "steps": st.integers(20, 200),
+                                                           "which": st.integers(0, 7)}), max_size=2)) if mode == "hpc" else [],
         })
     return {"core": core, "variants": variants}
 
@@ -74,7 +78,7 @@ def run_case(case):
     logs = []
     for vi, var in enumerate(case["variants"]):
         scn = variant_scenario(core, var)
-        with H.Sim(scn, schedule=var["schedule"], file_yields=var.get("file_yields", False),
+        with H.Sim(scn, schedule=var["schedule"], file_yields=var.get("file_yields", False), exotic=var.get("exotic", ()),
                    max_steps=30000 if var.get("file_yields") else 8000) as sim:
             import os
 
@@ -91,6 +95,8 @@ def run_case(case):
             sim.submit()
             outcome = sim.drive()
             sim.w.user_events.clear()
+            if sim.w.events("exotic"):
+                res["classes"].append("batch_shown_in_unusual_state")
             if var.get("late") and not sim.w.cond_events:
                 res["classes"].append("late_operator_command_fired")
             res["counters"]["variant_runs"] += 1
